@@ -232,6 +232,33 @@ def run(ctx):
             for bb, idx, s in cb.stmts():
                 if s["p"] == (0,) and "rv" in s and s["rv"]["k"] == "agg" and s["rv"].get("variant") == "Greater" and edge_dominated(cc, edges, bb):
                     okk = True
+        if not okk:
+            # the same order written with the combinators: rhs.len().cmp(&lhs.len()).then_with(..)  (or lhs.cmp(rhs).reverse().then..)
+            rets = [norm(Tc.rvalue(st["rv"], bb, idx)) for bb, idx, st in cb.stmts() if st["p"] == (0,) and "rv" in st]
+            rets += [norm(("call", callee_name(tm), tuple(Tc.call_args(bb)), bb)) for bb, tm in cb.calls() if tuple(tm["dest"]) == (0,)]
+
+            def primary(t, rev=0, depth=0):
+                """(first compared is rhs?, number of reversals) of the primary key of an Ordering expression"""
+                t = norm(t)
+                if depth > 8 or t[0] != "call":
+                    return None
+                last = str(t[1]).rsplit("::", 1)[-1]
+                if last in ("then_with", "then") and t[2]:
+                    return primary(t[2][0], rev, depth + 1)
+                if last == "reverse" and t[2]:
+                    return primary(t[2][0], rev + 1, depth + 1)
+                if last == "cmp" and len(t[2]) == 2:
+                    a, b_ = norm(t[2][0]), norm(t[2][1])
+                    if all(any(y[0] == "call" and str(y[1]).endswith("::len") for y in subterms(x)) for x in (a, b_)):
+                        pa = {y[1] for y in subterms(a) if y[0] == "param"}
+                        pb = {y[1] for y in subterms(b_) if y[0] == "param"}
+                        if pa == {2} and pb == {1}:
+                            return (True, rev)
+                        if pa == {1} and pb == {2}:
+                            return (False, rev)
+                return None
+            prim = [primary(r) for r in rets]
+            okk = bool(prim) and all(p_ is not None and (p_[0] == (p_[1] % 2 == 0)) for p_ in prim)
         ctx.check(okk, "R2", "compare:Greater-iff-lhs-has-fewer-labels", ctx.where(cb), "compare_longest_suffix(lhs, rhs) is Greater exactly when lhs has fewer labels than rhs")
 
     # ---------------- R3/R4 outcome table
